@@ -146,6 +146,32 @@ def run(sid, props, tier):
     json.dump(meta, open(os.path.join(d, "meta.json"), "w"), indent=1)
 
 
+def rebase(sid):
+    """The tree moved on under a stored patch (fix commits): re-apply it with a three-way merge and store the result.
+    The original stays next to it as patch.orig.diff. Fails (leaving /repo clean) when the merge has conflicts."""
+    d = "/verif/seeded/%s" % sid
+    rc, out = sh("git -C /repo status --porcelain")
+    assert out.strip() == "", "/repo not clean: " + out
+    rc, out = sh("git -C /repo apply --3way %s/patch.diff" % d)
+    try:
+        rc2, st = sh("git -C /repo status --porcelain")
+        if rc != 0 or any(l[:2] in ("UU", "AA", "DU", "UD") for l in st.splitlines()):
+            print(sid, "REBASE-CONFLICT", out[-300:])
+            return 1
+        rcb, outb = sh(". /verif/env.sh && cd /repo && go build ./... 2>&1 | tail -5")
+        if rcb != 0 or outb.strip():
+            print(sid, "REBASE-DOES-NOT-BUILD", outb[-300:])
+            return 1
+        rc3, diff = sh("git -C /repo diff HEAD")
+        if not os.path.exists(os.path.join(d, "patch.orig.diff")):
+            os.rename(os.path.join(d, "patch.diff"), os.path.join(d, "patch.orig.diff"))
+        open(os.path.join(d, "patch.diff"), "w").write(diff)
+        print(sid, "REBASED", len(diff.splitlines()), "lines")
+        return 0
+    finally:
+        sh("git -C /repo reset -q --hard HEAD")
+
+
 AS = None
 if __name__ == "__main__":
     if "--as" in sys.argv:
@@ -154,6 +180,8 @@ if __name__ == "__main__":
         del sys.argv[i:i + 2]
     if sys.argv[1] == "confirm":
         sys.exit(confirm(sys.argv[2], sys.argv[3]))
+    elif sys.argv[1] == "rebase":
+        sys.exit(rebase(sys.argv[2]))
     elif sys.argv[1] == "run":
         tier = "quick"
         args = sys.argv[2:]
